@@ -13,9 +13,16 @@ package store
 //	                                         checkpoint busy | process dies entering Sink.Close |
 //	                                         a LOAD is applied between FSM.Snapshot and Persist
 //	LOAD                                     database replaced (new lineage), FULL_NEEDED
+//	BOOT                                     Store.ReadFrom: a no-op entry, database replaced (new lineage)
+//	                                         outside the log, FULL_NEEDED, full snapshot at once
+//	INSTALL                                  follower snapshot install: the leader's image (the same database,
+//	                                         every page rewritten by an entry this node never received) is
+//	                                         written into a sink of the node's snapshot store, the sink is
+//	                                         closed, the snapshot is opened and handed to the REAL fsmRestore
 //	touch                                    database file looks modified from outside (dbModified)
-//	restart                                  crash: staging directory removed, database restored from
-//	                                         the newest snapshot, log entries after it re-applied
+//	restart                                  crash: staging directory removed, a new empty database, the newest
+//	                                         snapshot opened (Store.Open) and handed to the REAL fsmRestore,
+//	                                         log entries after it re-applied
 //
 // in a PAGE-VERSION abstraction: the database is (lineage, version of page 0, version of page 1);
 // a write batch sets one page to a fresh version; a WAL file is the token "these pages at these
@@ -27,10 +34,12 @@ package store
 // Checkpointer, real protobuf/CRC; the restored database is obtained with the real
 // snapshot.Store.Open + snapshot.Restore (native.go). The harness code is the same in both.
 //
-// Oracle (from the property statement): after every published snapshot and at every restart, the
-// newest snapshot's resolved files, applied in order, give exactly the database the node had
-// applied at that snapshot's index; every WAL file of the chain was cut from the lineage of the
-// base and after the base (a token older than the base it is applied to is never in a chain).
+// Oracle (from the property statement): after every published or installed snapshot and at every
+// restart, the newest snapshot's resolved files, applied in order, give exactly the database the
+// node had applied at that snapshot's index; every WAL file of the chain was cut from the lineage
+// of the base and after the base (a token older than the base it is applied to is never in a
+// chain); after an install and after a restart (restore + log replay) the LIVE database is the one
+// the node had applied.
 //
 // The hashicorp/raft side (takeSnapshot) is the protocol model vcSnapshot: FSM.Snapshot on the FSM
 // thread; then (snapshot thread) maybe give up before Persist; SnapshotStore.Create; Persist; on a
@@ -108,6 +117,8 @@ type vcEnv struct {
 	lastRestored string
 	touches      int
 	nrestored    int
+	nimages      int // leader images made so far (both worlds)
+	ntemps       int // symbolic world: scratch files made by createTemp
 }
 
 var vcEnvCur *vcEnv
@@ -169,11 +180,15 @@ func (e *vcEnv) openStore() {
 		dbDir:             e.root,
 		dbPath:            e.dbPath,
 		walPath:           e.walPath,
+		dbConf:            NewDBConfig(),
+		fsmTarget:         rsync.NewReadyTarget[uint64](),
+		appliedTarget:     rsync.NewReadyTarget[uint64](),
 	}
 	st, err := snapshot.NewStore(s.snapshotDir)
 	vcMust(err)
 	st.SetReapThreshold(1000) // reaping is outside this check
 	st.SetNoVerifyDB(true)
+	st.SetReadTimeout(0) // no idle timer on the readers returned by Open
 	s.snapshotStore = st
 	e.snaps = st
 	// Store.Open: "Clean up any files from aborted operations"
@@ -266,6 +281,39 @@ func (e *vcEnv) touch() {
 	}
 	e.mt++
 	vcFS.nodes[e.dbPath].mtime = e.mt
+}
+
+// leaderImage makes a database file holding st outside the node's own directories (what the
+// leader streams to a follower) and returns its path.
+func (e *vcEnv) leaderImage(st vcState) string {
+	e.seq++
+	e.nimages++
+	dir := filepath.Join(e.root, "leader")
+	vcMust(os.MkdirAll(dir, 0o755))
+	path := filepath.Join(dir, "image-"+string(rune('a'+e.nimages%26))+".db")
+	if !verifSymbolic() {
+		vcMakeDBFile(path, st)
+		e.tags[vcFileSum(path)] = vcTag{ok: true, lin: st.lin, seq: e.seq}
+		return path
+	}
+	n, err := vcCreateFile(path)
+	vcMust(err)
+	n.data = vcDBBytes(st, e.seq)
+	return path
+}
+
+// liveState: the database as a reader of the node sees it now.
+func (e *vcEnv) liveState() (vcState, bool) {
+	if !verifSymbolic() {
+		return e.nativeLiveState()
+	}
+	st := e.mainSt
+	for i := 0; i < 2; i++ {
+		if e.walHas[i] {
+			st.p[i] = e.wal[i]
+		}
+	}
+	return st, true
 }
 
 // walEmpty: nothing written since the last checkpoint.
@@ -374,6 +422,8 @@ func (e *vcEnv) restore(id string, dbFile string, walFiles []string) (vcState, b
 const (
 	vcWrite = iota
 	vcLoad
+	vcNop // an entry that does not change the database when applied (ReadFrom's "boot" no-op, or an
+	// entry of the leader's log that this node only ever received inside an installed snapshot)
 )
 
 type vcEntry struct {
@@ -396,6 +446,9 @@ type vcHist struct {
 	// FULL_NEEDED flag, snapshots present) folded the WAL into the database file and was then not
 	// published; no full snapshot has been published and no restart has happened since
 	fullForgotten bool
+	// WAL files retained from skipped / failed Persists were in the staging directory when a
+	// snapshot was installed from the leader; no full FSM snapshot and no restart since
+	retainedAtInstall bool
 }
 
 func vcNewHist() *vcHist {
@@ -435,6 +488,85 @@ func (h *vcHist) load() {
 	h.live = vcState{lin: en.lin, p: [2]int{en.ver, en.ver}}
 	h.stateAt = append(h.stateAt, h.live)
 	verifReach("load-full-needed")
+}
+
+// nop: one applied entry that leaves the database as it is.
+func (h *vcHist) nop(after vcState) {
+	h.applied++
+	h.log = append(h.log, vcEntry{kind: vcNop})
+	h.live = after
+	h.stateAt = append(h.stateAt, h.live)
+}
+
+// boot: Store.ReadFrom on a single-node leader (its raft-facing lines, in its order): "Raft won't
+// snapshot unless there is at least one unsnapshotted log entry" - a no-op entry is applied; the
+// new database is swapped in WITHOUT a log entry; "Snapshot, so we load the new database into the
+// Raft system": SetDueNext(Full), then Snapshot(1). From then on the system is documented to be
+// "as if the data had been loaded through Raft consensus": the database applied at the index of
+// that snapshot is the booted one.
+func (h *vcHist) boot() {
+	ver := h.applied + 1
+	st := vcState{lin: h.nextLin, p: [2]int{ver, ver}}
+	h.nextLin++
+	h.nop(st)
+	h.e.swapDB(st)
+	verifAssert("C04-set-full-needed-ok", h.e.s.snapshotStore.SetDueNext(snapshot.Full) == nil)
+	h.loadPending = true
+	verifReach("booted")
+	h.snapshot(vcOK)
+	// ReadFrom returns the error of Snapshot: a boot that succeeded has published its snapshot
+	verifAssert("C04-boot-full-snapshot-taken", !h.loadPending)
+	h.checkLive("boot")
+}
+
+// install: hashicorp/raft's installSnapshot + the restore it hands to the FSM thread, on a node
+// that lags behind the leader by (at least) one entry it never received: SnapshotStore.Create
+// with the leader's index; the leader's stream copied into the sink (Cancel on error); sink.Close;
+// then SnapshotStore.Open(sink.ID()), FSM.Restore(reader), reader closed; last applied = index of
+// the snapshot. The leader's image is the same database with every page rewritten by that entry,
+// streamed by the real snapshot.SnapshotStreamer from a database file (a leader whose newest
+// snapshot is a full one).
+func (h *vcHist) install() {
+	s := h.e.s
+	idx := uint64(h.applied + 1)
+	img := vcState{lin: h.live.lin, p: [2]int{int(idx), int(idx)}}
+	vcTick()
+	retained := h.stagedWALs() > 0
+	src := h.e.leaderImage(img)
+	sink, err := s.snapshotStore.Create(1, idx, 1, raft.Configuration{}, 0, nil)
+	verifAssert("C04-install-sink-create-ok", err == nil)
+	str, err := snapshot.NewSnapshotStreamer(src)
+	verifAssert("C04-install-streamer-ok", err == nil)
+	verifAssert("C04-install-streamer-open-ok", str.Open() == nil)
+	_, cerr := io.Copy(sink, str)
+	str.Close()
+	verifAssert("C04-install-copy-ok", cerr == nil)
+	verifAssert("C04-install-sink-close-ok", sink.Close() == nil)
+	_, rc, err := s.snapshotStore.Open(sink.ID())
+	verifAssert("C04-install-open-ok", err == nil)
+	rerr := NewFSM(s).Restore(rc)
+	rc.Close()
+	verifAssert("C04-install-restore-ok", rerr == nil)
+	h.e.lin = img.lin
+	h.nop(img)
+	h.loadPending = false
+	h.fullForgotten = false
+	h.retainedAtInstall = h.retainedAtInstall || retained
+	verifReach("installed")
+	if retained {
+		verifReach("installed-with-retained-wal")
+	}
+	h.checkLive("install")
+	h.checkNewest("install", idx)
+}
+
+// checkLive: the database the node serves is the one it has applied.
+func (h *vcHist) checkLive(tag string) {
+	got, ok := h.e.liveState()
+	verifAssert("C04-"+tag+"-live-readable", ok)
+	verifAssert("C04-"+tag+"-live-lineage", got.lin == h.live.lin)
+	verifAssert("C04-"+tag+"-live-page0", got.p[0] == h.live.p[0])
+	verifAssert("C04-"+tag+"-live-page1", got.p[1] == h.live.p[1])
 }
 
 // snapshot outcomes
@@ -494,6 +626,7 @@ func (h *vcHist) snapshot(outcome int) {
 	if fs.Type.IsFull() {
 		h.e.noteFullImage()
 		h.loadPending = false
+		h.retainedAtInstall = false
 		unflaggedFull = storeDue == snapshot.Incremental && !walEmpty
 	}
 	if outcome == vcSkip {
@@ -633,16 +766,33 @@ func (h *vcHist) restart() {
 	if !any {
 		got, idx = vcState{}, 0
 	}
+	// createDBOnDisk(remove = true): a new, empty database ...
 	h.e.seq++
-	h.e.resetDB(got)
+	h.e.resetDB(vcState{})
 	h.e.attachDB()
+	if any {
+		// ... into which raft restores the newest snapshot: SnapshotStore.List, Open, FSM.Restore
+		metas, err := h.e.snaps.List()
+		verifAssert("C04-restart-list-ok", err == nil && len(metas) == 1)
+		_, rc, err := h.e.snaps.Open(metas[0].ID)
+		verifAssert("C04-restart-open-ok", err == nil)
+		rerr := NewFSM(h.e.s).Restore(rc)
+		rc.Close()
+		verifAssert("C04-restart-restore-ok", rerr == nil)
+		h.e.lin = got.lin
+	}
+	h.live = got
+	h.checkLive("restart-restored")
 	h.loadPending = false
 	h.fullForgotten = false
+	h.retainedAtInstall = false
 	for i, en := range h.log {
 		if uint64(i+1) > idx {
 			h.applyEntry(en)
 		}
 	}
+	h.live = h.stateAt[h.applied]
+	h.checkLive("restart-replayed")
 	verifReach("restarted")
 }
 
@@ -678,6 +828,8 @@ const (
 	stSnapSkip
 	stLoad
 	stRestart
+	stBoot
+	stInstall
 	stTouch
 	stSnapPersistFail
 	stSnapCkBusy
@@ -700,6 +852,10 @@ func (h *vcHist) step(k int) {
 		h.load()
 	case stRestart:
 		h.restart()
+	case stBoot:
+		h.boot()
+	case stInstall:
+		h.install()
 	case stTouch:
 		h.e.touch()
 	case stSnapPersistFail:
@@ -767,11 +923,37 @@ func vcRun(prefix []int, k int, kinds int) {
 // VerifC04History: every history of K free steps from every start state, then a restart.
 func VerifC04History() {
 	p := verifChoice("prefix", len(vcPrefixes))
-	k, kinds := 2, int(stRestart)+1
+	k, kinds := 2, int(stInstall)+1
 	if verifTier() > 0 {
 		k = 4
 	}
 	vcRun(vcPrefixes[p], k, kinds)
+}
+
+// VerifC04Retained: the family the property singles out ("a retained staged WAL combined with a
+// later full snapshot, load, boot or install"), as a product:
+//
+//	full snapshot; write page 0; snapshot that RETAINS its staged WAL (released without Persist |
+//	Persist fails); [the database is REPLACED or a full snapshot becomes due: LOAD | BOOT | INSTALL |
+//	file touched]; [nothing | write page 0 | write
+//	page 1 before the next snapshot - i.e. the WAL of the new database is empty or not when the full
+//	snapshot is cut]; snapshot (ok | released without Persist, then ok); write page 0 | page 1;
+//	snapshot ok; restart.
+func VerifC04Retained() {
+	retain := []int{stSnapSkip, stSnapPersistFail}[verifChoice("retain", 2)]
+	replace := []int{stLoad, stBoot, stInstall, stTouch}[verifChoice("replace", 4)]
+	between := verifChoice("between", 3)
+	twice := verifChoice("full-twice", 2)
+	later := []int{stW0, stW1}[verifChoice("later", 2)]
+	steps := []int{stW0, stSnapOK, stW0, retain, replace}
+	if between > 0 {
+		steps = append(steps, []int{stW0, stW1}[between-1])
+	}
+	if twice > 0 {
+		steps = append(steps, stSnapSkip)
+	}
+	steps = append(steps, stSnapOK, later, stSnapOK)
+	vcRun(steps, 0, 1)
 }
 
 // VerifC04HistoryLong (thorough tier): longer histories over writes and snapshots with / without
